@@ -20,6 +20,7 @@ package main
 import (
 	"fmt"
 	"go/types"
+	"net"
 	"sort"
 	"strconv"
 	"strings"
@@ -605,6 +606,30 @@ func absEq(a *absstr, y value) *Term {
 	if !ok {
 		if a.tag == "concrete-or-sym" {
 			return tFalse
+		}
+		if s, isStr := y.(string); isStr && (a.tag == "ip4" || a.tag == "ip6") {
+			// rendering of a symbolic address against a concrete text: equal iff the text is the
+			// canonical rendering of an address with those bytes
+			ip := net.ParseIP(s)
+			if ip == nil || ip.String() != s {
+				return tFalse
+			}
+			var raw []byte
+			if a.tag == "ip4" {
+				if raw = ip.To4(); raw == nil {
+					return tFalse
+				}
+			} else {
+				if ip.To4() != nil {
+					return tFalse
+				}
+				raw = ip.To16()
+			}
+			r := tTrue
+			for i := range a.args {
+				r = mkBAnd(r, eqTerm(nil, a.args[i], cint(raw[i])))
+			}
+			return r
 		}
 		panic(unsupported(fmt.Sprintf("comparison of opaque string %s with %T", a.tag, y)))
 	}
